@@ -146,6 +146,9 @@ SHAPES = [
     _shape("method-non-ascii", "class Café:\n    def échec(self, exc, msg):\n        raise exc(msg)  # déjà vu\n\n\ndef fail(exc, msg):\n    return Café().échec(exc, msg)\n"),
     _shape("chained-explicit", "def fail(exc, msg):\n    try:\n        {}['k']\n    except KeyError as e:\n        raise exc(msg) from e\n"),
     _shape("chained-implicit", "def fail(exc, msg):\n    try:\n        int('x')\n    except ValueError:\n        try:\n            raise exc(msg)\n        finally:\n            pass\n"),
+    _shape("cyclic-context", "def fail(exc, msg):\n    a = exc(msg)\n    b = KeyError('k')\n    a.__context__ = b\n    b.__context__ = a\n    raise a\n"),
+    _shape("self-cause", "def fail(exc, msg):\n    a = exc(msg)\n    a.__cause__ = a\n    raise a\n"),
+    _shape("context-chain-1500", "def fail(exc, msg):\n    a = exc(msg)\n    cur = a\n    for i in range(1500):\n        nxt = ValueError('level %d' % i)\n        cur.__context__ = nxt\n        cur = nxt\n    raise a\n"),
     _shape("message-with-source-markup", "def fail(exc, msg):\n    raise exc(msg + ' <info>src</info>')\n"),
     _shape("long-line", "def fail(exc, msg):\n    raise exc(msg)  # " + "x" * 300 + "\n"),
     _shape("multi-line-string-on-failing-line", 'def fail(exc, msg):\n    raise exc(msg + """\n    tail""")\n'),
